@@ -192,6 +192,9 @@ def ref_layout_cases():
     # a directory stored with a trailing slash (writers that keep the caller's spelling): getinfo must find it either way
     slashed = [dict(members[0], name="docs/")] + members[1:]
     out.append({"members": slashed, "layout": dict(base), "password": None, "label": "dir-trailing-slash"})
+    # packed header WITHOUT a CRC of its own (what py7zr releases before the CRC was added wrote, and some fixtures)
+    out.append({"members": members, "layout": dict(base, header="lzma2", header_crc=False), "password": None, "label": "lzma2-header-nocrc"})
+    out.append({"members": members, "layout": dict(base, header="copy", header_crc=False), "password": None, "label": "copy-header-nocrc"})
     return out
 
 
